@@ -151,6 +151,24 @@ def body_map(env):
                     env.eq('identical meshes: identity [%d,%d]' % (c, f), F[c, f], 1.0 if c == f else 0.0)
 
 
+def body_stored(env):
+    """The maps every region of every assembly of a real Reactor carries are the maps of *its own* position: equal to
+    _map_asm2gap(region bounds, gap bounds around that assembly) recomputed here.  No symbolic dimension: enumeration of
+    layouts (two assemblies of a type facing different neighbours are the point)."""
+    from harness import symcore as SC
+    r = SC.build_reactor(env.params['layout'])
+    n = 0
+    for a, asm in enumerate(r.assemblies):
+        for k, reg in enumerate(asm.region):
+            F, C = mf._map_asm2gap(reg.calculate_xbnds(), r.core._asm_sc_xbnds[a])
+            ok = (np.shape(F) == np.shape(reg._map['gap2duct']) and np.shape(C) == np.shape(reg._map['duct2gap'])
+                  and bool(np.allclose(F, reg._map['gap2duct'], rtol=1e-12, atol=1e-14))
+                  and bool(np.allclose(C, reg._map['duct2gap'], rtol=1e-12, atol=1e-14)))
+            env.holds('assembly %d region %d carries the maps of its own position' % (a, k), ok, key='stored_map_of_another_position')
+            n += 1
+    env.holds('every assembly has at least one region with maps', n >= len(r.assemblies))
+
+
 def instances(tier):
     inst = []
     regs = [('unrodded',), ('rodded', 1), ('rodded', 2)] + ([('rodded', 3)] if tier == 'thorough' else [])
@@ -168,6 +186,8 @@ def instances(tier):
             for rel in (('equal', 'distinct') if same else (None,)):
                 inst.append(dict(label='map[region=%s,gap=%s%s]' % ('-'.join(map(str, r)), ''.join(map(str, g)), ',' + rel if rel else ''),
                                  body=body_map, params={'region': r, 'gap': g, 'rel': rel}, max_paths=512, max_depth=400, timeout_ms=60000))
+    for l in ('two-a2-a3', 'three-a2-a3-ur', 'ring-no-centre', 'six-hole', 'seven-mixed', 'seven-alt', 'three-a3-dd-u6'):
+        inst.append(dict(label='stored-maps[%s]' % l, body=body_stored, params={'layout': l}, check_vacuity=False))
     # regions with two and three duct walls: the boundaries must describe the outermost wall
     for nd in ((2,) if tier == 'quick' else (2, 3)):
         for r, g, rel in ((('rodded', 1), (1,) * 6, 'equal'), (('rodded', 1), (2, 2, 1, 1, 2, 2), None), (('rodded', 2), (3,) * 6, None)):
